@@ -2,6 +2,7 @@ package main
 
 import (
 	"fmt"
+	"go/token"
 	"strings"
 
 	"golang.org/x/tools/go/ssa"
@@ -245,4 +246,122 @@ func sortStrings(s []string) {
 			s[j], s[j-1] = s[j-1], s[j]
 		}
 	}
+}
+
+// fieldLoads returns the load instructions of struct fields that feed v (through arithmetic,
+// comparisons, conversions, pure call arguments and phis).
+func fieldLoads(v ssa.Value, depth int, seen map[ssa.Value]bool, out *[]*ssa.UnOp) {
+	if depth > 8 || v == nil || seen[v] {
+		return
+	}
+	seen[v] = true
+	switch x := v.(type) {
+	case *ssa.UnOp:
+		if x.Op == token.MUL {
+			if _, ok := x.X.(*ssa.FieldAddr); ok {
+				*out = append(*out, x)
+				return
+			}
+			if ia, ok := x.X.(*ssa.IndexAddr); ok {
+				fieldLoads(ia.X, depth+1, seen, out)
+				return
+			}
+			if a, ok := x.X.(*ssa.Alloc); ok { // local variable: follow what was stored
+				if refs := a.Referrers(); refs != nil {
+					for _, r := range *refs {
+						if st, ok := r.(*ssa.Store); ok && st.Addr == a {
+							fieldLoads(st.Val, depth+1, seen, out)
+						}
+					}
+				}
+				return
+			}
+		}
+		fieldLoads(x.X, depth+1, seen, out)
+	case *ssa.BinOp:
+		fieldLoads(x.X, depth+1, seen, out)
+		fieldLoads(x.Y, depth+1, seen, out)
+	case *ssa.Convert:
+		fieldLoads(x.X, depth+1, seen, out)
+	case *ssa.ChangeType:
+		fieldLoads(x.X, depth+1, seen, out)
+	case *ssa.Phi:
+		for _, e := range x.Edges {
+			fieldLoads(e, depth+1, seen, out)
+		}
+	case *ssa.Call:
+		for _, a := range x.Call.Args {
+			fieldLoads(a, depth+1, seen, out)
+		}
+	case *ssa.Extract:
+		fieldLoads(x.Tuple, depth+1, seen, out)
+	case *ssa.IndexAddr:
+		fieldLoads(x.X, depth+1, seen, out)
+	case *ssa.Index:
+		fieldLoads(x.X, depth+1, seen, out)
+	case *ssa.Slice:
+		fieldLoads(x.X, depth+1, seen, out)
+	case *ssa.Field:
+		fieldLoads(x.X, depth+1, seen, out)
+	case *ssa.FieldAddr:
+		fieldLoads(x.X, depth+1, seen, out)
+	case *ssa.MakeInterface:
+		fieldLoads(x.X, depth+1, seen, out)
+	case *ssa.Alloc:
+		// a local aggregate (e.g. the varargs array of append): follow what is stored into it
+		var follow func(addr ssa.Value, d int)
+		follow = func(addr ssa.Value, d int) {
+			refs := addr.Referrers()
+			if refs == nil || d > 3 {
+				return
+			}
+			for _, r := range *refs {
+				switch y := r.(type) {
+				case *ssa.Store:
+					if y.Addr == addr {
+						fieldLoads(y.Val, depth+1, seen, out)
+					}
+				case *ssa.IndexAddr:
+					follow(y, d+1)
+				case *ssa.FieldAddr:
+					follow(y, d+1)
+				}
+			}
+		}
+		follow(x, 0)
+	}
+}
+
+// loadedUnder: every load of field `key` feeding the branch condition of item `it` is executed
+// with lock class `class` held in at least `mode`.  A condition that tests a value read in an
+// earlier critical section (a stale snapshot) fails this test even if the branch itself sits
+// inside the later critical section.
+func (c *Ctx) loadedUnder(it Item, key, class string, mode byte) (bool, string) {
+	ifi, ok := it.Instr.(*ssa.If)
+	if !ok {
+		return false, "not a branch"
+	}
+	var loads []*ssa.UnOp
+	fieldLoads(ifi.Cond, 0, map[ssa.Value]bool{}, &loads)
+	li := c.P.Locks()
+	found := false
+	for _, ld := range loads {
+		fr, ok := fieldRefOf(ld.X)
+		if !ok || fr.Key() != key {
+			continue
+		}
+		found = true
+		fl := li.Fns[ld.Parent()]
+		if fl == nil {
+			return false, "load outside analysed code"
+		}
+		held := fl.Must[ld].HoldsClass(class)
+		if held == 0 || (mode == 'W' && held != 'W') {
+			return false, fmt.Sprintf("%s is read at %s without %s held in mode %c (a stale value read in an earlier critical section is re-used)", key, c.P.InstrPos(ld), class, mode)
+		}
+	}
+	if !found {
+		return false, "the condition does not read " + key
+	}
+	return true, ""
 }
